@@ -200,6 +200,23 @@ func (o *cmC03) invariants(m *chainMachine, pre, post *cmSnap, what string) {
 	if err := escrow.ValidateGenesis(gs); err != nil {
 		m.fatalf("c03-genesis", "after %s: exported escrow state fails the chain's genesis validation: %v", what, err)
 	}
+	// the exported state IS the state: every exported record equals the stored one (decoded
+	// record by record from the raw store), so the clauses above hold for the export as well
+	if len(gs.Accounts) != len(post.accounts) || len(gs.Payments) != len(post.payments) {
+		m.fatalf("c03-genesis-export", "after %s: export has %d accounts / %d payments, the store has %d / %d", what, len(gs.Accounts), len(gs.Payments), len(post.accounts), len(post.payments))
+	}
+	for _, a := range gs.Accounts {
+		st, ok := post.account(a.ID)
+		if !ok || st.State != a.State || st.Owner != a.Owner || !st.Balance.IsEqual(a.Balance) || !st.Transferred.IsEqual(a.Transferred) || st.SettledAt != a.SettledAt {
+			m.fatalf("c03-genesis-export", "after %s: exported account %s = {%s bal %s transferred %s settled %d} differs from the stored record %s", what, cmAccKey(a.ID), a.State, a.Balance, a.Transferred, a.SettledAt, fmtAcc(st, ok))
+		}
+	}
+	for _, p := range gs.Payments {
+		st, ok := post.payment(p.AccountID, p.PaymentID)
+		if !ok || st.State != p.State || st.Owner != p.Owner || !st.Balance.IsEqual(p.Balance) || !st.Rate.IsEqual(p.Rate) || !st.Withdrawn.IsEqual(p.Withdrawn) {
+			m.fatalf("c03-genesis-export", "after %s: exported payment %s = {%s rate %s bal %s withdrawn %s} differs from the stored record %s", what, cmPayKey(p), p.State, p.Rate, p.Balance, p.Withdrawn, fmtPay(st, ok))
+		}
+	}
 }
 
 func (o *cmC03) afterAdvance(m *chainMachine, pre, post *cmSnap) {
@@ -364,7 +381,9 @@ func fmtAcc(a etypes.Account, ok bool) string {
 	return fmt.Sprintf("%s (balance %s)", a.State, a.Balance)
 }
 
-func (o *cmC05) afterAdvance(m *chainMachine, pre, post *cmSnap) { o.agree(m, post, "advancing blocks") }
+func (o *cmC05) afterAdvance(m *chainMachine, pre, post *cmSnap) {
+	o.agree(m, post, "advancing blocks")
+}
 
 func (o *cmC05) afterTx(m *chainMachine, tx *cmTx) {
 	o.agree(m, tx.post, tx.label)
